@@ -45,6 +45,7 @@ fn gen(rng: &mut Rng, _i: u64) -> String {
 	spec.opt_size = spec.std_opt_size();
 	let wf = rng.chance(7, 10);
 	let mut pokes: Vec<(usize, Vec<u8>)> = Vec::new();
+	let mut planted = false;
 	let len: usize;
 	if wf {
 		// ---- well-formed images: 1..96 sections, VS <,=,> SRD, empty raw data, alignment combinations
@@ -98,6 +99,48 @@ fn gen(rng: &mut Rng, _i: u64) -> String {
 			let size = match rng.below(4) { 0 => 0, 1 => ext - off, 2 => (s.vs.min(s.srd)).saturating_sub(off), _ => rng.below((ext - off) as u64 + 1) as u32 };
 			dirs[[0usize, 1, 2, 5, 9, 12][d % 6]] = (s.va + off, size);
 		}
+		// structured export / import / base relocation directories inside one roomy section (half of the images
+		// that have one): tables, name strings and thunk arrays that the parsers decode on both representations
+		if let Some(k) = (0..n).find(|&k| spec.secs[k].srd >= 0x100 && spec.secs[k].vs >= 0x40) {
+			if rng.chance(1, 2) {
+				planted = true;
+				let (sva, sprd) = (spec.secs[k].va, spec.secs[k].prd);
+				// mostly inside min(VS,SRD); sometimes the structures run into the raw tail / beyond the stored data
+				let lim = spec.secs[k].vs.min(spec.secs[k].srd).max(0x40);
+				let base_off = if lim > 0xF0 && rng.chance(3, 4) { (rng.below((lim - 0xF0) as u64 + 1) as u32) & !7 } else { (rng.below(spec.secs[k].srd as u64) as u32) & !7 };
+				let le32 = |x: u32| x.to_le_bytes().to_vec();
+				let mut blob: Vec<u8> = Vec::new();
+				let at = |blob: &Vec<u8>| sva + base_off + blob.len() as u32;
+				// names
+				let nm0 = at(&blob); blob.extend_from_slice(b"alpha\0");
+				let nm1 = at(&blob); blob.extend_from_slice(b"beta\0\0");
+				let dll = at(&blob); blob.extend_from_slice(b"k.dll\0\0\0");
+				// export tables: 3 functions, 2 names
+				let nf = rng.range(1, 3) as u32;
+				let funcs = at(&blob); for i in 0..nf { blob.extend(le32(sva + 0x10 * (i + 1))); }
+				let names = at(&blob); blob.extend(le32(nm0)); blob.extend(le32(nm1));
+				let ords = at(&blob); blob.extend_from_slice(&[0, 0, 1, 0]);
+				let exp = at(&blob);
+				for v in [0u32, 0, 0, dll, rng.range(0, 3) as u32, nf, 2, funcs, if rng.chance(1, 8) { 0 } else { names }, ords] { blob.extend(le32(v)); }
+				// import: thunk array (hint/name entries + ordinal), descriptor array with its null terminator
+				while blob.len() % 8 != 0 { blob.push(0); }
+				let hn = at(&blob); blob.extend_from_slice(&[7, 0]); blob.extend_from_slice(b"gamma\0");
+				while blob.len() % 8 != 0 { blob.push(0); }
+				let thunks = at(&blob);
+				if pe64 { blob.extend((hn as u64).to_le_bytes()); blob.extend((0x8000_0000_0000_0005u64).to_le_bytes()); blob.extend(0u64.to_le_bytes()); }
+				else { blob.extend(le32(hn)); blob.extend(le32(0x8000_0005)); blob.extend(le32(0)); }
+				let imp = at(&blob);
+				for v in [thunks, 0u32, 0, dll, thunks] { blob.extend(le32(v)); }
+				if rng.chance(7, 8) { blob.extend_from_slice(&[0u8; 20]); }
+				// base relocations: one block
+				let rel = at(&blob);
+				blob.extend(le32(sva)); blob.extend(le32(12)); blob.extend_from_slice(&[0x10, 0x30, 0x00, 0x00]);
+				dirs[0] = (exp, 40);
+				dirs[1] = (imp, 40);
+				dirs[5] = (rel, if rng.chance(1, 6) { rng.range(1, 0x40) as u32 } else { 12 });
+				pokes.push(((sprd + base_off) as usize, blob));
+			}
+		}
 	}
 	else {
 		// ---- accepted-but-odd: the shapes of gen_sections (overlaps, raw data outside the file, wrapping
@@ -147,6 +190,12 @@ fn gen(rng: &mut Rng, _i: u64) -> String {
 			_ => qs.push(format!("d:{}", rng.below(17))),
 		}
 	}
+	// the directory parsers themselves, on both representations
+	if planted || rng.chance(1, 4) {
+		qs.push("x:0".to_string());
+		qs.push("i:0".to_string());
+		qs.push("b:0".to_string());
+	}
 	format!("conv fmt={} wf={} {} soh={} soi={} secs={} q={}", if pe64 { 64 } else { 32 }, wf as u8, img.encode(), spec.soh, spec.soi, secs_field(&spec.secs), join(&qs, ","))
 }
 
@@ -170,9 +219,44 @@ macro_rules! run_conv {
 			assert!(o <= base.len() && s.len() <= base.len() - o, "harness: returned region outside the buffer");
 			o
 		};
+		// the decoded VALUES of a directory parser: exports tables, import descriptors with dll names and IAT
+		// values, base relocation bytes
+		fn dq<'a, P: $m::Pe<'a>>(pe: P, k: &str) -> String {
+			let jl = |v: Vec<u64>| -> String { join(&v, ".") };
+			match k {
+				"x" => match pe.exports().and_then(|e| e.by().map(|b| (e, b))) {
+					Ok((e, b)) => format!("ok:{}/{}/{}/{}", jl(b.functions().iter().map(|x| *x as u64).collect()), jl(b.names().iter().map(|x| *x as u64).collect()),
+						jl(b.name_indices().iter().map(|x| *x as u64).collect()), e.image().Base),
+					Err(e) => format!("e:{:?}", e),
+				},
+				"i" => match pe.imports() {
+					Ok(imps) => {
+						let ds: Vec<String> = imps.iter().map(|d| {
+							let im = d.image();
+							let dll = match d.dll_name() { Ok(s) => format!("n{}", hex(s.c_str())), Err(e) => format!("e{:?}", e) };
+							let iat = match d.iat() { Ok(it) => format!("v{}", jl(it.map(|x| *x as u64).collect())), Err(e) => format!("e{:?}", e) };
+							format!("{}.{}.{}.{}.{}/{}/{}", im.OriginalFirstThunk, im.TimeDateStamp, im.ForwarderChain, im.Name, im.FirstThunk, dll, iat)
+						}).collect();
+						format!("ok:{}", join(&ds, ";"))
+					},
+					Err(e) => format!("e:{:?}", e),
+				},
+				_ => match pe.base_relocs() {
+					Ok(br) => format!("ok:{}", hex(br.image())),
+					Err(e) => format!("e:{:?}", e),
+				},
+			}
+		}
 		let mut out: Vec<String> = Vec::new();
 		for q in $qs {
 			let p: Vec<&str> = q.split(':').collect();
+			if p[0] == "x" || p[0] == "i" || p[0] == "b" {
+				let sf = dq(file, p[0]);
+				let sv = match view { Some(w) => dq(w, p[0]), None => "-".to_string() };
+				let eq = (sf == sv) as u8;
+				out.push(format!("{}|{}|{}", sf, sv, eq));
+				continue;
+			}
 			let n = |i: usize| -> u64 { p[i].parse::<u64>().unwrap() };
 			// (result on the file, result on the view) as byte slices
 			let (rf, rv): (Option<pelite::Result<&[u8]>>, Option<pelite::Result<&[u8]>>) = match p[0] {
